@@ -404,7 +404,14 @@ class Translator:
         facts = self.saturate(forms, fuel, lemmas, ob.local_lemmas, known=known)
         return forms + facts
 
-    def solve(self, ob, lemmas, timeout_ms=10000, fuel=None, use_cvc5=True):
+    def to_cvc5_text(self, s):
+        import re as _re
+        smt = s.to_smt2()
+        sorts = _re.findall(r'^\(declare-sort [^\n]*\)\s*$', smt, flags=_re.M)
+        smt = _re.sub(r'^\(declare-sort [^\n]*\)\s*$', '', smt, flags=_re.M)   # z3 prints them after the datatypes
+        return '\n'.join(x.strip() for x in sorts) + '\n' + smt
+
+    def solve(self, ob, lemmas, timeout_ms=10000, fuel=None, use_cvc5=True, cross=False):
         t0 = time.time()
         forms = self.prepare(ob, lemmas, fuel)
         s = z3.Solver()
@@ -415,6 +422,14 @@ class Translator:
         r = s.check()
         ms = (time.time() - t0) * 1000
         if r == z3.unsat:
+            if cross:
+                # thorough tier: the same query (after saturation: quantifier-free) goes to an independent back end; `sat`
+                # there is a disagreement between the solvers and makes the obligation undecided, never discharged
+                st, why = run_cvc5(self.to_cvc5_text(s), 8000)
+                ms = (time.time() - t0) * 1000
+                if st == 'sat':
+                    return 'undecided', 'z3/cvc5', ms, None, 'back ends disagree: z3 unsat, cvc5 sat', size
+                return 'discharged', ('z3+cvc5' if st == 'unsat' else 'z3'), ms, None, '', size
             return 'discharged', 'z3', ms, None, '', size
         if r == z3.sat:
             m = s.model()
